@@ -53,17 +53,20 @@ class LoopProp(Prop):
 
     def chunk_of(self, line):
         t = line.split(" ")
-        if t[0] in ("timing", "req", "multi", "abort", "storm"):
+        if t[0] in ("timing", "staleretx", "req", "multi", "abort", "storm"):
             # server-level lines share a sandbox tree per root: all lines of one root go to one harness process
             return sum(bytes.fromhex(t[1])) & 0xffff
         return sum(line.encode()) & 0xffff
 
     def nontrivial(self, line, impl):
-        return impl.startswith("s=") or line.startswith("timing ")
+        return impl.startswith("s=") or line.startswith(("timing ", "staleretx ", "multi "))
 
     def classify(self, line, impl, res):
-        if line.startswith("timing "):
+        if line.startswith("timing ") or line.startswith("staleretx "):
             res.count("server-level-retransmission:" + impl[:40])
+            return
+        if line.startswith("multi "):
+            res.count("server-level-lossy-upload:flags=" + line.split(" ")[2])
             return
         if not line.startswith("loop "):
             return
@@ -78,6 +81,18 @@ class LoopProp(Prop):
         if line.startswith("timing "):
             from .p_server import C09
             return C09.timing_oracle(self, line, impl)
+        if line.startswith("multi "):
+            # a lost ACK per window never fails the upload: the file is stored with exactly its content and the client is told so
+            from .p_server import C12
+            return C12.oracle(self, line, impl)
+        if line.startswith("staleretx "):
+            # two consecutive failed receive attempts (the stale ACK is not one) are far below the budget of 6
+            if not impl.startswith("first=oack"):
+                return ("download with timeout=1 not started (%s)" % impl, "staleretx-start")
+            if "done=ok" not in impl:
+                return ("DATA 2 lost, a stale duplicate ACK 1 late in the interval, the first retransmission lost: two consecutive failed receive "
+                        "attempts, yet the download does not complete (%s)" % impl, "staleretx-abandoned")
+            return None
         if not line.startswith("loop "):
             return None
         o = parse_obs(impl)
@@ -206,6 +221,14 @@ class C04(LoopProp):
             root = (self.sandbox + "/k%d" % k).encode().hex()
             lines.append("timing %s %s srv/f=gen:20:1 %s first" % (root, flags, rq("rrq", b"f", (("blksize", 8),)).hex()))
             lines.append("timing %s %s srv/f=gen:20:1 %s first" % (root, flags, rq("rrq", b"f", (("tsize", 0), ("timeout", 1))).hex()))
+            # ... and a stale duplicate ACK late in the interval neither postpones nor cancels the retransmissions that follow
+            lines.append("staleretx %s %s srv/f=gen:40:3 %s" % (root, flags, rq("rrq", b"f", (("timeout", 1), ("blksize", 8))).hex()))
+        # through the server: an uploading client that "loses" the first acknowledgement of every window and sends the window again - also in
+        # single-port mode and in duplicate-packets mode, where the listener routes and every datagram is repeated
+        for k, flags in enumerate(["s", "-", "s1", "s2", "1"]):
+            root = (self.sandbox + "/m%d" % k).encode().hex()
+            lines.append("multi %s %s srv/c=gen:16:3 01 U:up1:8:1:gen:30:1 d:c:8:1" % (root, flags))
+            lines.append("multi %s %s srv/c=gen:16:3 0 U:up1:512:2:gen:2100:8 U:up2:8:3:gen:70:2" % (root, flags))
         # the same datagram lost six times in a row: beyond the budget, must end (no livelock)
         lines.append(loop_line(8, 1, 5000, 1, "gen:20:1", dd=[1, 2, 3, 4, 5, 6]))
         return list(dict.fromkeys(lines))
@@ -404,6 +427,10 @@ class C14(LoopProp):
         for mode in ["multi", "single"]:
             cases.append((mode, "::|::1", "down", 512, 1, 5, 700, "f.bin"))
             cases.append((mode, "::|127.0.0.1", "up", 512, 2, 5, 1300, ""))
+            # a server on the IPv4 wildcard addressed through another address of the same host: the replies come from the address the
+            # kernel picks (127.0.0.1), not from the one the client used - a transfer is identified by the port pair
+            cases.append((mode, "0.0.0.0|127.0.0.2", "down", 512, 1, 5, 600, "f.bin"))
+            cases.append((mode, "0.0.0.0|127.0.0.2", "up", 8, 2, 5, 50, ""))
         if tier == "thorough":
             for w in (8, 64):
                 cases.append(("multi", "127.0.0.1", "down", 8, w, 1, 8 * 65537 + 3, "f.bin"))
@@ -415,7 +442,7 @@ class C14(LoopProp):
                 bind_ip, ip = (ip.split("|") + [ip])[:2] if "|" in ip else (ip, ip)
                 key = (mode, bind_ip)
                 if key not in servers:
-                    sdir = os.path.join(root, "srv-%s-%s" % (mode, "any6" if bind_ip == "::" else ("6" if ":" in bind_ip else "4")))
+                    sdir = os.path.join(root, "srv-%s-%s" % (mode, "any6" if bind_ip == "::" else ("any4" if bind_ip == "0.0.0.0" else ("6" if ":" in bind_ip else "4"))))
                     os.makedirs(os.path.join(sdir, "sub"), exist_ok=True)
                     ok = False
                     for _ in range(20):
